@@ -21,7 +21,13 @@ FAMILY = {
 def record(behs, variants):
     traces = []
     for i, beh in enumerate(behs):
-        kw = variants[i % len(variants)]
+        kw = dict(variants[i % len(variants)])
+        # histories whose transactions touch the two MDS of the two-MDS concretisation alternately run on that fixture
+        # (report parts are grouped by MDS); every fifth of the others does, too
+        mixed = any(lab.startswith('M:') and lab.count(':') == 2 and len(lab.split(':')[2]) >= 2
+                    and set(lab.split(':')[2]) <= {'A', 'B'} for lab in mdibcommon.situation_labels(beh))
+        if mixed or i % 5 == 4:
+            kw['mapping'] = 'two'
         ses = MirrorSession(mdibcommon.SIM_H, mdibcommon.SIM_CH, **kw)
         try:
             # MutateCopy is a C03 action (and its known finding changes the provider MDIB without a commit):
